@@ -64,7 +64,7 @@ def harnesses(ctx):
                       "2-character mixed-width text, two-token path " + what + " with symbolic word costs" + "; dictionary words whose stored surface (0 / 1 byte) and key length (symbolic, 0..126) differ from the matched text, unknown word with a symbolic part of speech",
                       kernel="C01-f result nodes take their byte range from the lattice node's character range, not from the loaded word information",
                       assumptions=["one path per harness (no competing segmentation); zero connection costs (C02 decides the choice of path)", "identity offset map (C01-a/b decide the translation to the original)"],
-                      stubs=["alloc::fmt::format -> empty string"], fs_array=True, timeout_s=1500, mem_gb=16, rust_mod="verif_c01_resolve",
+                      stubs=["alloc::fmt::format -> empty string"], fs_array=True, timeout_s=3000, mem_gb=30, rust_mod="verif_c01_resolve", tiers=("thorough",), required=False,
                       outside=["longer paths (the conversion is per node)"]))
     hs.append(Harness("c01_split_partition", "analysis__node",
                       ["ResultNode::split", "NodeSplitIterator::next", "LexiconSet::get_word_info_subset", "WordInfoParser::parse (HEAD_WORD_LENGTH)", "InputBuffer::ch_idx"],
@@ -106,7 +106,7 @@ MANIFEST = dict(
     text=("The end-to-end statement is out of symbolic reach (regex, NFKC, dictionaries); what is decided are the three links it rests on, each for all values of its symbolic inputs: "
           "(a) for ANY offset map satisfying the invariant and any consecutive token ranges of the normalised text, begin/end/surface computed by the real accessors are adjacent, start at 0, "
           "end at the input length, lie on character boundaries and add up to the input; (b) every edit batch of an enumerated shape family maps any invariant-satisfying map to an "
-          "invariant-satisfying map (so the invariant holds after any number of plugin rewrites); (c) the path the lattice returns is gap-free from 0 to the text end; (d) A/B sub-nodes partition their parent and (e) a node joined by a path-rewrite plugin begins where the first and ends where the last merged node did, in characters and bytes, whatever the dictionary-side strings are; (f) resolve_best_path gives every result node the byte offsets of its lattice node's first / behind its last character, whatever the loaded word information says (stored surface and key length differ from the matched text; unknown word). "
+          "invariant-satisfying map (so the invariant holds after any number of plugin rewrites); (c) the path the lattice returns is gap-free from 0 to the text end; (d) A/B sub-nodes partition their parent and (e) a node joined by a path-rewrite plugin begins where the first and ends where the last merged node did, in characters and bytes, whatever the dictionary-side strings are; (f, thorough tier only, optional: heavy) resolve_best_path gives every result node the byte offsets of its lattice node's first / behind its last character, whatever the loaded word information says. "
           "The chaining argument is written in DESIGN.md, not machine-checked."),
     note="Kernel-level and compositional; plugin behaviour (which edits, which joins) is outside. Trusted: Kani/CBMC/cadical and the chaining argument.",
 )
